@@ -35,7 +35,7 @@ def errOfName (s : String) : Option Err :=
 
 /-- `Name=status,…`, `~` for the empty map, `@` for the generated one -/
 def parseMap (s : String) : Option (List (String × Nat)) :=
-  if s == "@" then some Ombott.Gen.errorsMap
+  if s == "@" then some Ombott.Gen.bodyErrorsMap
   else if s == "~" then some []
   else (s.splitOn ",").mapM fun kv =>
     match kv.splitOn "=" with
@@ -113,7 +113,7 @@ def handle : List String → Option String
     let e ← errOfName name
     pure (raise_ map e "RequestError").name
   | ["defaults"] =>
-    some s!"errors_map={showMap Ombott.Gen.errorsMap} max_body_size={match Ombott.Gen.maxBodySize with | some n => toString n | none => "~"} max_memfile_size={Ombott.Gen.maxMemfileSize}"
+    some s!"errors_map={showMap Ombott.Gen.bodyErrorsMap} max_body_size={match Ombott.Gen.maxBodySize with | some n => toString n | none => "~"} max_memfile_size={Ombott.Gen.maxMemfileSize}"
   | _ => none
 
 end Drv.Body
